@@ -702,6 +702,9 @@ func doReplay(ck *Check, path, root string) int {
 			}
 		}
 		fps[k] = fingerprintOf(res)
+		if d := os.Getenv("VERIF_DET_DUMP"); d != "" {
+			dumpJournal(filepath.Join(d, fmt.Sprintf("replay-%d.journal", k)), res)
+		}
 		res.Cleanup()
 	}
 	sort.Strings(sigs[0])
